@@ -12,6 +12,8 @@ pub mod package_name;
 pub mod paths;
 pub mod pretty;
 pub mod telemetry;
+#[cfg(feature = "verif-hooks")]
+pub mod verif_hooks;
 pub mod watch;
 
 mod test_framework;
@@ -1169,6 +1171,9 @@ where
                 _ => None,
             })
             .collect::<Vec<_>>();
+
+        #[cfg(feature = "verif-hooks")]
+        crate::verif_hooks::run_pre_parallel_audit(&tests);
 
         let mut results = tests
             .into_par_iter()
